@@ -705,6 +705,10 @@ def oracle(case, res):
         return None
     if res['tflag'] != wt:
         return 'library reads TFLAG %s from a reference file encoding %s' % (res['tflag'], wt)
+    if res.get('tstep_attr') is not None and res['tstep_attr'] != case['tstep'] * 10000:
+        # the writer falls back on this attribute for objects without ETFLAG
+        return 'library presents TSTEP=%s for a file of %d-hour steps (first step %s to %s)' % (
+            res['tstep_attr'], case['tstep'], case['tflag'][0], case['etflag'][0])
     return None
 
 
